@@ -7,7 +7,7 @@
    harness's knowledge for glob/regex/mode/date/user/file operands).  The model has no panic outcome:
    every function is total; that the implementation never panics is established by the correspondence
    check under catch_unwind on every run, not by these theorems. *)
-Require Import Tables TablesOk Expr Expr3 Expr4 Expr5 ExprSide Args ArgsProofs.
+Require Import Tables TablesOk Expr Expr3 Expr4 Expr5 ExprSide Args ArgsProofs RegexRefs RegexRefsSpec RegexRefsProofs.
 From Coq Require Import List Arith Bool.
 Import ListNotations.
 
@@ -124,3 +124,33 @@ Theorem C11_primary_table : primaries = [
   ([45; 120; 116; 121; 112; 101], (1, 0))].
 Proof. exact primaries_ok. Qed.
 Print Assumptions C11_primary_table.
+
+(* An invalid operand to -regex: a back-reference to a group that is not complete where it stands.  The check is one pass over the
+   flat pattern with a stack of the groups still open ([RegexRefs.ref_run], the model of check_back_references, compared with the
+   code through a hook on every generated pattern); what it decides is what the recursion over the pattern's structure says
+   ([RegexRefsSpec.refs_valid]: every alternative of a group starts from what was complete where the group began; a closed group is
+   complete together with everything its alternatives completed - GNU regex's rule), for every pattern structure. *)
+Theorem C11_back_references_one_pass : forall e, refs_ok (toks_alts e) = refs_valid e.
+Proof. exact refs_ok_decides. Qed.
+Print Assumptions C11_back_references_one_pass.
+
+(* (a)\1 ; (\1) ; (a)|\1 ; ((a)|b)\2 ; (a|(b))\2 ; ((a)\1) ; ((a)\2) ; (a)(b|\1)\2 ; \1(a) ; ((a)|\2) *)
+Example C11_back_reference_witness :
+  let a := AOth in let g x := AGrp (One x) in let s1 x := SCons x SNil in let s2 x y := SCons x (SCons y SNil) in
+  refs_valid (One (s2 (g (s1 a)) (ARef 1))) = true /\
+  refs_valid (One (s1 (g (s1 (ARef 1))))) = false /\
+  refs_valid (More (s1 (g (s1 a))) (One (s1 (ARef 1)))) = false /\
+  refs_valid (One (s2 (AGrp (More (s1 (g (s1 a))) (One (s1 a)))) (ARef 2))) = true /\
+  refs_valid (One (s2 (AGrp (More (s1 a) (One (s1 (g (s1 a)))))) (ARef 2))) = true /\
+  refs_valid (One (s1 (g (s2 (g (s1 a)) (ARef 1))))) = false /\
+  refs_valid (One (s1 (g (s2 (g (s1 a)) (ARef 2))))) = true /\
+  refs_valid (One (SCons (g (s1 a)) (s2 (AGrp (More (s1 a) (One (s1 (ARef 1))))) (ARef 2)))) = true /\
+  refs_valid (One (s2 (ARef 1) (g (s1 a)))) = false /\
+  refs_valid (One (s1 (AGrp (More (s1 (g (s1 a))) (One (s1 (ARef 2))))))) = false /\
+  (* the same through the characters: posix-extended "((a)|b)\2" and "(a)|\1" *)
+  back_references_ok true false true [40; 40; 97; 41; 124; 98; 41; 92; 50] = true /\
+  back_references_ok true false true [40; 97; 41; 124; 92; 49] = false /\
+  (* emacs "[[:x:]\(a\)]\1" (no classes: the bracket expression ends at the first "]") and the same in posix-basic *)
+  back_references_ok false false false [91; 91; 58; 120; 58; 93; 92; 40; 97; 92; 41; 93; 92; 49] = true /\
+  back_references_ok false false true [91; 91; 58; 120; 58; 93; 92; 40; 97; 92; 41; 93; 92; 49] = false.
+Proof. vm_compute. repeat split. Qed.
